@@ -182,6 +182,7 @@ def check(prog, run):
     obs = collect(u, reach)
     cxs = {}
     seen = {}
+    seen_open = {}
     counts = {"R1": 0, "R2": 0, "R3": 0}
     how_counts = {}
     for (p, bb, kind, frm, to, node, stmt) in obs:
@@ -209,6 +210,9 @@ def check(prog, run):
                 # variable shift amounts are bit-accumulation idioms (LEB128 / var-uint): bits above the type are C12's Shl obligation
                 run.ok("R3", key, "variable shift amount: accumulation idiom; amount bound is a C12 obligation", loc)
             else:
+                sk = "shl %s << %s" % (mir.site_free_desc(b, sym.show(a))[:100], sym.show(c)[:20])
+                seen_open[sk] = seen_open.get(sk, 0) + 1
+                key = sk + (" #%d" % seen_open[sk] if seen_open[sk] > 1 else "")
                 run.bad("R3", key, "`%s << %s` can shift set bits out of %s (operand up to %s)" % (sym.show(a)[:60], sym.show(c)[:10], ty, ia[1] if ia else "?"), loc)
             continue
         if frm == "char":
@@ -242,7 +246,10 @@ def check(prog, run):
             how_counts[how.split(" ")[0]] = how_counts.get(how.split(" ")[0], 0) + 1
             run.ok(rule, key, how, loc)
         else:
-            run.bad(rule, key, "`%s as %s` (from %s) can lose value bits: no interval or dominating guard keeps the operand inside [%d, %d]" % (sym.show(e)[:70], to, frm, rt[0], rt[1]), loc)
+            sk = "cast %s->%s %s" % (frm, to, mir.site_free_desc(b, sym.show(e))[:120])
+            seen_open[sk] = seen_open.get(sk, 0) + 1
+            key = sk + (" #%d" % seen_open[sk] if seen_open[sk] > 1 else "")
+            run.bad(rule, key, "in %s: `%s as %s` (from %s) can lose value bits: no interval or dominating guard keeps the operand inside [%d, %d]" % (_kname(p), sym.show(e)[:70], to, frm, rt[0], rt[1]), loc)
     run.extra["inventory"] = counts
     run.extra["discharge"] = how_counts
     run.floor("R1", counts["R1"], 40, "narrowing integer casts")
